@@ -16,16 +16,22 @@
 //!   hint-target   an inlay-hint label location covers, in the target document, the declaration it stands for: `new` /
 //!                 `:call` = exactly the `overload ...` tag of a `---@overload` line, `<name>:` = the parameter `<name>`
 //!                 (`varN:` = `...`), `override` = a declaration naming the overridden method, a type name = that name
+//!   panic         no handler panics
 //!   edits         the edits for one file of a WorkspaceEdit (rename, code action) lie in that file and never overlap
 //!   completion    an item's main edit is a single-line range on the cursor line that contains the cursor
 //!   selection     every range lies in the document; each parent contains its child and differs from it
 //!   symbols       ranges in the document, selection range inside the range, children inside their parent
 //!   folding       start <= end, both lines in the document
 //!   tokens        semantic tokens decode to tokens inside the document, ordered, not overlapping, type and modifier
-//!                 indices inside the legend of `server_capabilities`
-//! Bounds: 3 workspaces x 5 files (about 60 lines each); inlay hints, semantic tokens (split and multi-line), symbols and
-//! folding once per file; selection ranges at EVERY position of every file; the position-taking requests at the first
-//! and second character of every identifier (completion: after every `.`/`:` and at the end of every 3rd identifier).
+//!                 indices inside the legend of `server_capabilities` (the length 9999 that the split of a multi-line token
+//!                 gives its non-last pieces is read as "to the end of the line" unless --strict-token-length)
+//! Two open findings on the unchanged tree (known_open_findings.txt: F1 selection ranges over merged adjacent markup
+//! delimiters, F2 overlapping comment tokens on the continuation line of a split multi-line token) are printed as
+//! KNOWN-FINDING and do not fail the search; any other hit of the same oracles still does.
+//! Bounds: 5 workspaces x 5 files (about 65 lines each; every third workspace has two CRLF files); inlay hints, semantic
+//! tokens (split and multi-line), symbols and folding once per file; selection ranges at EVERY position of every file; the
+//! position-taking requests at the first and second character of every identifier and at every position of a doc-comment
+//! line (completion: after every `.`/`:` and at the end of every 3rd identifier); code actions for 3 codes on every line.
 //!   replay files <a.lua> ... | replay text '<lua>' ...   the same checks on the given files as one workspace (replay of a hit)
 //!   --all-findings         do not treat the open findings of known_open_findings.txt as known (they are printed as
 //!                          KNOWN-FINDING and do not fail the search otherwise)
@@ -33,6 +39,7 @@
 //!   replay search [seed]   prints "FOUND <oracle> request=.. file=.. ..." (per oracle the hit with the smallest document,
 //!                          with the texts involved) and exits 1; exit 0 otherwise; exit 2 when the workspace cannot be
 //!                          set up (a generated call produced no `new` hint with a location, no tokens, ...)
+#![allow(dead_code)] // the oracles of handlers the hook of the tree under test does not re-export
 use emmylua_code_analysis::{EmmyLuaAnalysis, FileId, VirtualUrlGenerator};
 use emmylua_ls::verif_hooks as h;
 use lsp_types::*;
@@ -89,6 +96,7 @@ fn gen_workspace(rng: &mut Rng, w: usize) -> Vec<GenFile> {
         t.push_str("local function outer(f)\n    local function innerfn(g)\n        return function(k) return f, g, k end\n    end\n    return innerfn\nend\n");
         t.push_str(&format!("local s = \"中文\" .. str .. 'é😀' -- trailing 注释 {}\n---@type string 描述\nlocal described = s\n", markup(rng, 3)));
         t.push_str(&format!("if s1 then\n    print(s1:area(), t.b.c(3), str, s2, viaRequire, made, outer, early, described, {e}.Red)\nelseif s2 then\n    for i = 1, 3 do print(i) end\nelse\n    while false do end\n    repeat until true\nend\n"));
+        t.push_str("local m1, m2 = function() return 1 end, 2\nlocal obj = { method = function(self) return self end, [\"键\"] = { 1 } }\nobj:method():method()\nlocal long = [==[\na ]] b 长\n]==]\ndo local scoped = m1; print(scoped, m2, long) end\n");
         t.push_str("local arr = { \"x\", \"y\" }\nprint(arr[1], t[10], a_rather_long)");
         t.push_str("\nreturn t\n");
         files.push(GenFile { name: format!("{tag}_use_{i}.lua"), text: t });
@@ -97,6 +105,8 @@ fn gen_workspace(rng: &mut Rng, w: usize) -> Vec<GenFile> {
     for _ in 0..4 { t.push_str(&format!("--- {}\n", markup(rng, 8))); }
     t.push_str(&format!("---@param p string the `p`**q**{}\n---@return string {}\nlocal function documented(p) return p end\n\n--- {}\nlocal value = documented(\"x\")\nreturn value\n", markup(rng, 3), markup(rng, 4), markup(rng, 6)));
     files.push(GenFile { name: format!("{tag}_markup.lua"), text: t });
+    // every third workspace has CRLF line ends in its first class file and its first user file
+    if w % 3 == 2 { for i in [0, 2] { files[i].text = files[i].text.replace('\n', "\r\n"); } }
     files
 }
 
@@ -219,7 +229,7 @@ impl<'a> Check<'a> {
                 let bad = if v == "new" || v == ":call" {
                     self.count("meta-call hint locations");
                     let line = tl.get(loc.range.start.line as usize).copied().unwrap_or("");
-                    let rest: String = line.chars().skip(4).collect();
+                    let rest: String = line.trim_end_matches('\r').chars().skip(4).collect();
                     if line.starts_with("---@overload ") && loc.range.start.character == 4 && t == rest { None } else { Some(format!("expected exactly the `overload ...` tag of a `---@overload` line")) }
                 } else if v == "override" {
                     let before: String = own_lines[hint.position.line as usize].chars().take(hint.position.character as usize).collect();
@@ -327,6 +337,8 @@ fn ident_positions(text: &str) -> (Vec<Position>, Vec<Position>) {
     let mut n = 0;
     for (l, line) in text.split('\n').enumerate() {
         let chars: Vec<char> = line.chars().collect();
+        // doc comment lines: every position (descriptions, references, type expressions)
+        if line.starts_with("---") { for c in 0..=chars.len() { nav.push(Position::new(l as u32, c as u32)); } }
         let mut c = 0;
         while c < chars.len() {
             if chars[c].is_alphabetic() || chars[c] == '_' {
@@ -346,7 +358,19 @@ fn ident_positions(text: &str) -> (Vec<Position>, Vec<Position>) {
 }
 
 // ------------------------------------------------------------------------------------------------ search
-const WORKSPACES: usize = 3;
+static LAST_TASK_PANIC: std::sync::Mutex<String> = std::sync::Mutex::new(String::new());
+/// a synchronous handler entry: a panic is a hit of its own (the request task of the server would die)
+macro_rules! guard { ($ck:expr, $req:expr, $pos:expr, $call:expr) => {
+    match std::panic::catch_unwind(std::panic::AssertUnwindSafe(|| $call)) { Ok(v) => v,
+        Err(_) => { let m = LAST_TASK_PANIC.lock().map(|g| g.clone()).unwrap_or_default(); $ck.hit("panic", $req, $pos, format!("the handler panicked: {}", m.chars().take(300).collect::<String>()), None); None } }
+} }
+/// an async handler entry, run as its own task like in the server
+#[allow(unused_macros)]
+macro_rules! task { ($ck:expr, $req:expr, $fut:expr) => {
+    match tokio::spawn($fut).await { Ok(v) => v,
+        Err(_) => { let m = LAST_TASK_PANIC.lock().map(|g| g.clone()).unwrap_or_default(); $ck.hit("panic", $req, None, format!("the request task panicked: {}", m.chars().take(300).collect::<String>()), None); None } }
+} }
+const WORKSPACES: usize = 5;
 static DUMP: std::sync::atomic::AtomicBool = std::sync::atomic::AtomicBool::new(false);
 fn load_known(all_findings: bool) -> Vec<(String, String)> {
     if all_findings { return vec![]; }
@@ -356,6 +380,7 @@ fn load_known(all_findings: bool) -> Vec<(String, String)> {
 
 async fn search(seed: u64, given: Option<Vec<GenFile>>, strict: bool, known: Vec<(String, String)>) -> i32 {
     let t0 = std::time::Instant::now();
+    let _ = strict;
     let (server_end, _client_end) = lsp_server::Connection::memory();
     let context = h::ServerContext::new(server_end, ClientCapabilities::default());
     let snap = context.snapshot();
@@ -391,15 +416,15 @@ async fn search(seed: u64, given: Option<Vec<GenFile>>, strict: bool, known: Vec
             let _ = &tdi;
             // document-wide requests
             #[cfg(hook_inlay_hint)]
-            if let Some(hints) = h::inlay_hint(&analysis, *id, h::ClientId::VSCode) { ck.inlay_hints(hints); }
+            if let Some(hints) = guard!(ck, "inlayHint", None, h::inlay_hint(&analysis, *id, h::ClientId::VSCode)) { ck.inlay_hints(hints); }
             #[cfg(hook_semantic)]
             for multiline in [false, true] {
-                if let Some(SemanticTokensResult::Tokens(t)) = h::semantic_token(&analysis, *id, multiline, h::ClientId::VSCode) { ck.tokens(if multiline { "semanticTokens(multiline)" } else { "semanticTokens" }, &t.data, multiline, legend, strict); }
+                if let Some(SemanticTokensResult::Tokens(t)) = guard!(ck, "semanticTokens", None, h::semantic_token(&analysis, *id, multiline, h::ClientId::VSCode)) { ck.tokens(if multiline { "semanticTokens(multiline)" } else { "semanticTokens" }, &t.data, multiline, legend, strict); }
             }
             #[cfg(hook_symbols)]
-            if let Some(DocumentSymbolResponse::Nested(syms)) = h::on_document_symbol(snap.clone(), DocumentSymbolParams { text_document: tdi.clone(), work_done_progress_params: Default::default(), partial_result_params: Default::default() }, CancellationToken::new()).await { ck.symbols(&syms, None); }
+            if let Some(DocumentSymbolResponse::Nested(syms)) = task!(ck, "documentSymbol", h::on_document_symbol(snap.clone(), DocumentSymbolParams { text_document: tdi.clone(), work_done_progress_params: Default::default(), partial_result_params: Default::default() }, CancellationToken::new())) { ck.symbols(&syms, None); }
             #[cfg(hook_folding)]
-            if let Some(folds) = h::on_folding_range_handler(snap.clone(), FoldingRangeParams { text_document: tdi.clone(), work_done_progress_params: Default::default(), partial_result_params: Default::default() }, CancellationToken::new()).await { ck.folding(folds); }
+            if let Some(folds) = task!(ck, "foldingRange", h::on_folding_range_handler(snap.clone(), FoldingRangeParams { text_document: tdi.clone(), work_done_progress_params: Default::default(), partial_result_params: Default::default() }, CancellationToken::new())) { ck.folding(folds); }
             #[cfg(hook_selection)]
             {
                 let mut positions = vec![];
@@ -408,7 +433,7 @@ async fn search(seed: u64, given: Option<Vec<GenFile>>, strict: bool, known: Vec
                 let mut by_line: BTreeMap<u32, Vec<Position>> = BTreeMap::new();
                 for p in positions { by_line.entry(p.line).or_default().push(p); }
                 for (_, ps) in by_line {
-                    let r = h::on_document_selection_range_handle(snap.clone(), SelectionRangeParams { text_document: tdi.clone(), positions: ps.clone(), work_done_progress_params: Default::default(), partial_result_params: Default::default() }, CancellationToken::new()).await;
+                    let r = task!(ck, "selectionRange", h::on_document_selection_range_handle(snap.clone(), SelectionRangeParams { text_document: tdi.clone(), positions: ps.clone(), work_done_progress_params: Default::default(), partial_result_params: Default::default() }, CancellationToken::new()));
                     ck.selection(&ps, r);
                 }
             }
@@ -416,22 +441,22 @@ async fn search(seed: u64, given: Option<Vec<GenFile>>, strict: bool, known: Vec
             let (nav, comp) = ident_positions(&f.text);
             for pos in nav {
                 ck.count("navigation positions");
-                let r = h::definition(&analysis, *id, pos); ck.goto("definition", pos, r);
-                let r = h::implementation(&analysis, *id, pos); ck.goto("implementation", pos, r);
-                if let Some(locs) = h::references(&analysis, *id, pos, true) { for l in locs { ck.location("references", Some(pos), &l); } }
-                if let Some(hv) = h::hover(&analysis, *id, pos) { if let Some(r) = hv.range { ck.own_range("location", "hover", Some(pos), r, "hover range"); } }
-                if let Some(we) = h::rename(&analysis, *id, pos, "renamed_zz".to_string()) { ck.workspace_edit("rename", Some(pos), &we); }
+                let r = guard!(ck, "definition", Some(pos), h::definition(&analysis, *id, pos)); ck.goto("definition", pos, r);
+                let r = guard!(ck, "implementation", Some(pos), h::implementation(&analysis, *id, pos)); ck.goto("implementation", pos, r);
+                if let Some(locs) = guard!(ck, "references", Some(pos), h::references(&analysis, *id, pos, true)) { for l in locs { ck.location("references", Some(pos), &l); } }
+                if let Some(hv) = guard!(ck, "hover", Some(pos), h::hover(&analysis, *id, pos)) { if let Some(r) = hv.range { ck.own_range("location", "hover", Some(pos), r, "hover range"); } }
+                if let Some(we) = guard!(ck, "rename", Some(pos), h::rename(&analysis, *id, pos, "renamed_zz".to_string())) { ck.workspace_edit("rename", Some(pos), &we); }
             }
             for pos in comp {
                 ck.count("completion positions");
-                let r = h::completion(&analysis, *id, pos, CompletionTriggerKind::INVOKED, CancellationToken::new());
+                let r = guard!(ck, "completion", Some(pos), h::completion(&analysis, *id, pos, CompletionTriggerKind::INVOKED, CancellationToken::new()));
                 ck.completion(pos, r);
             }
             for (l, line) in f.text.split('\n').enumerate() {
                 for code in ["undefined-global", "need-check-nil", "unused"] {
                     let range = Range::new(Position::new(l as u32, 0), Position::new(l as u32, line.chars().count() as u32));
                     let d = Diagnostic { range, source: Some("EmmyLua".to_string()), code: Some(NumberOrString::String(code.to_string())), ..Default::default() };
-                    if let Some(actions) = h::code_action(&analysis, *id, vec![d]) {
+                    if let Some(actions) = guard!(ck, "codeAction", Some(range.start), h::code_action(&analysis, *id, vec![d])) {
                         for a in actions { if let CodeActionOrCommand::CodeAction(ca) = a { if let Some(we) = &ca.edit { ck.workspace_edit(&format!("codeAction {code}"), Some(range.start), we); } } }
                     }
                 }
@@ -470,6 +495,7 @@ async fn search(seed: u64, given: Option<Vec<GenFile>>, strict: bool, known: Vec
 
 #[tokio::main]
 async fn main() {
+    std::panic::set_hook(Box::new(|info| { if let Ok(mut g) = LAST_TASK_PANIC.lock() { *g = info.to_string().replace('\n', " "); } }));
     let a: Vec<String> = std::env::args().skip(1).collect();
     let strict = a.iter().any(|x| x == "--strict-token-length");
     if a.iter().any(|x| x == "--dump") { DUMP.store(true, std::sync::atomic::Ordering::Relaxed); }
